@@ -12,9 +12,11 @@
 -/
 import Chrono.Proofs.LocalCacheNarrowL
 import Chrono.Proofs.LocalCacheF33L
+import Chrono.Proofs.LocalCacheWorldL
 
 namespace Chrono.Props.C18
 open Chrono.M.LocalCache Chrono.Spec.LocalCache Chrono.Proofs.LocalCache Chrono.Extracted.LocalCache
+open Chrono.Proofs.LocalCacheWorld
 
 /-- the constants re-extracted from the Rust source are the ones the property text names; and the
 cache's environment source is the TEXT of TZ, compared as text, with no hasher in unix.rs (F33
@@ -414,5 +416,92 @@ example :
       [(.tzif (usrShareZoneinfo ++ [47, 98]) 2, .created),
        (.tzif (usrShareZoneinfo ++ [47, 83]) 9, .reloaded),
        (.tzif etcLocaltime 7, .reloaded), (.tzif [47, 97] 1, .reloaded)] := by decide
+
+/-! ### second review, round 3: /etc/localtime changes under the running process (G2), entry points (G5),
+a clock that goes backwards (G6) -/
+
+/-- **"…and notices changes": the mtime branch.**  Histories over `StepW` (Model/LocalCacheWorld.lean):
+the steps of the process plus `setMtime` (touch) and `replaceLocaltime` (/etc/localtime re-linked: new
+mtime, new content, new system zone name).  If a step `chg` gives /etc/localtime the mtime `m1`, every
+mtime it had before (from the start of the process on) was available and different from `m1`, TZ is
+unset (or not text) at that point and is not changed afterwards, and at least one second passes in the
+process's further steps `b` (waiting, conversions on any threads, threads starting), then the conversion
+made next on ANY thread — one that converted before the change, inside the last second, or never — uses
+the zone demanded with TZ unset in the world AFTER the change (`worldAfter`, written in the
+specification without reference to the model's step function).  Before `chg` anything may happen: TZ set
+and unset, earlier re-links.  What is assumed and is not a property of the crate: mtimes never repeat
+(`hfresh`; see `same_mtime_not_noticed`) and the metadata is readable. -/
+theorem mtime_change_honoured (W0 : World) (e0 : EnvVal) (k0 : Nat) (a : List StepW) (chg : StepW)
+    (b : List Step) (m1 : Nat)
+    (hchg : mtimeSetBy chg = some (some m1))
+    (hfresh : ∀ m ∈ mtimesOf W0 a, ∃ m0, m = some m0 ∧ m0 ≠ m1)
+    (hunset : env_var (envAfter e0 (baseSteps a)) = none)
+    (hquiet : ∀ x ∈ b, isChange x = false)
+    (hwait : ONE_SECOND ≤ elapsed b) (t : Nat) (localDir : Bool) :
+    zoneOfStepW (stepW (execW (initW W0 e0 k0) (a ++ chg :: b.map StepW.base)) (.base (.convert t localDir))) =
+      some (zoneFor (worldAfter W0 (a ++ [chg])) none) :=
+  mtime_change_honoured' W0 e0 k0 a chg b m1 hchg hfresh hunset hquiet hwait t localDir
+
+/-- non-vacuity of `mtime_change_honoured`, and the window: TZ unset, convert (zone 7 of W0's
+/etc/localtime, mtime 5); /etc/localtime replaced (mtime 6, content 8, system zone "b"); 0.999999999 s
+later the same thread still answers 7, one nanosecond later 8 (`reloaded`); a thread that never
+converted answers 8 at once; a touch (mtime 9, same content) is a reload to the same zone -/
+example :
+    runW (initW W0 .unset 100)
+      [.base (.convert 0 false), .replaceLocaltime (some 6) (.data (some 8)) (some [98]),
+       .base (.advance 999999999), .base (.convert 0 true), .base (.convert 1 false),
+       .base (.advance 1), .base (.convert 0 false),
+       .setMtime (some 9), .base (.advance 1000000000), .base (.convert 0 true)] =
+      [(.tzif etcLocaltime 7, .created), (.tzif etcLocaltime 7, .reused), (.tzif etcLocaltime 8, .created),
+       (.tzif etcLocaltime 8, .reloaded), (.tzif etcLocaltime 8, .reloaded)] ∧
+    zoneFor (worldAfter W0 [.base (.convert 0 false), .replaceLocaltime (some 6) (.data (some 8)) (some [98])]) none =
+      .tzif etcLocaltime 8 ∧
+    mtimesOf W0 [.base (.convert 0 false)] = [some 5] := by decide
+
+/-- **Declared limit, kernel-checked: /etc/localtime is noticed only through its mtime.**  In `W0`:
+the file is replaced by another zone (content 8) but the link keeps mtime 5 — 2 s and 3 s later the
+thread that converted before still answers the old zone 7 (`rechecked`), for ever; a new thread answers
+8.  The hypothesis `hfresh` of `mtime_change_honoured` cannot be dropped.  (Real file systems stamp a
+re-link with the current time, so this needs a forged or coarse mtime.) -/
+theorem same_mtime_not_noticed :
+    runW (initW W0 .unset 100)
+      [.base (.convert 0 false), .replaceLocaltime (some 5) (.data (some 8)) (some [83]),
+       .base (.advance 2000000000), .base (.convert 0 false), .base (.advance 1000000000),
+       .base (.convert 0 true), .base (.convert 1 false)] =
+      [(.tzif etcLocaltime 7, .created), (.tzif etcLocaltime 7, .rechecked),
+       (.tzif etcLocaltime 7, .rechecked), (.tzif etcLocaltime 8, .created)] := by decide
+
+/-- **A clock that went backwards never lets the cache be reused** (`now.duration_since(last_checked)`
+answers `Err`, the `Ok(d) if d.as_secs() < 1` arm does not match): the source is re-read.  Stated for one
+lookup from any cache; histories in this file only advance the clock. -/
+theorem backwards_refreshes (W : World) (c : Cache) (now : Nat) (env : EnvVal)
+    (hlt : now < c.last_checked) : (Cache.offset W c now env).2 ≠ .reused :=
+  backwards_refreshes' W c now env hlt
+
+example : (Cache.offset W0 { zone := .utc, source := .localTime 5, last_checked := 10 } 9 .unset).2 = .rechecked ∧
+    (Cache.offset W0 { zone := .utc, source := .localTime 4, last_checked := 10 } 9 .unset).2 = .reloaded := by
+  decide
+
+/-- **`honoured_result` at the entry points the property's `observe_at` names.**  `Local.from_utc_datetime`
+and `Local.from_local_datetime` (the `TimeZone` defaults, `Api.*`), called next on any thread after any
+history, with any value of the lookup counter: the reading itself, paired with what the zone demanded for
+a value TZ had less than one second back answers in that direction. -/
+theorem honoured_entry_points {β : Type} (L : Lookups β) (W : World) (e0 : EnvVal) (k0 : Nat)
+    (h : List Step) (t : Nat) (d : Int) (n : Nat) :
+    ∃ q r, h = q ++ r ∧ elapsed r < ONE_SECOND ∧
+      (Api.from_utc_datetime L W ⟨exec W (init e0 k0) h, n⟩ t d).2 =
+        (d, L.utc (zoneFor W (env_var (envAfter e0 q))) d) ∧
+      (Api.from_local_datetime L W ⟨exec W (init e0 k0) h, n⟩ t d).2 =
+        (d, L.loc (zoneFor W (env_var (envAfter e0 q))) d) ∧
+      (Api.with_timezone L W ⟨exec W (init e0 k0) h, n⟩ t d).2 =
+        (d, L.utc (zoneFor W (env_var (envAfter e0 q))) d) := by
+  obtain ⟨q, r, e, hr, hu, hl⟩ := honoured_result L W e0 k0 h t d
+  refine ⟨q, r, e, hr, ?_, ?_, ?_⟩
+  · show (d, (Local.offset_from_utc_datetime L W (exec W (init e0 k0) h) t d).2) = _
+    rw [hu]
+  · show (d, (Local.offset_from_local_datetime L W (exec W (init e0 k0) h) t d).2) = _
+    rw [hl]
+  · show (d, (Local.offset_from_utc_datetime L W (exec W (init e0 k0) h) t d).2) = _
+    rw [hu]
 
 end Chrono.Props.C18
